@@ -65,6 +65,49 @@ def one(tier, seed, ev, rep, kind, ids, fresh, maxlive, budget):
     rep.note(f"{kind} {ids} {fresh} live<={maxlive}: {stats}")
 
 
+def trace_cfg(kind):
+    return dict(spec="TraceSpec", constants={
+        "AtomId": "<- TraceIds", "Fresh": "<- TraceFresh", "FreshAP": "<- TraceFreshAP", "ElemOf": "<- TraceElem",
+        "LabelOf": "<- TraceLabel", "Valence": "<- TraceVal", "QGiven": "<- TraceQ", "MaxLive": 100000,
+        "HasCharges": "TRUE" if kind == "Molecule" else "FALSE", "Deviations": "<- DevNone"},
+        invariants=("NoDupAtoms", "BondsInside"))
+
+
+SOURCES = ("dendrobine_mol2", "benzene_mol2", "dmf_mol2", "fxyl_mol2", "isornitrate_mol2", "hadd_test_mol2")
+
+
+def direction_b(tier, seed, ev, rep):
+    """Random edit histories of length 40 on file-loaded / cloned molecules, validated by TLC (MolEditTrace)."""
+    from ..drivers_moledit import history
+    from .. import trace as T
+    n = 8 if tier == "quick" else 120
+    jobs = [(seed * 1000 + i, SOURCES[i % len(SOURCES)], "Molecule" if i % 4 else "Structure") for i in range(n)]
+    traces = {"Molecule": [], "Structure": []}
+    for sd, src, kind in jobs:
+        traces[kind].append(history(sd, 40, src, kind))
+    bad, nev = 0, 0
+    for kind, ts in traces.items():
+        if not ts:
+            continue
+        verdicts, results = T.validate("MolEditTrace", ts, trace_cfg(kind), chunk=1, par=8, tag="c05tr", timeout=900)
+        ev.add_tlc(results[0], f"MolEditTrace validation ({kind}, first batch)")
+        for t in ts:
+            nev += len(t["ev"])
+            v, l = verdicts[t["tid"]]
+            if v != "ACCEPT":
+                bad += 1
+                e = dict(t["ev"][l - 1]); o = e.pop("obs", None)
+                prev = t["ev"][l - 2]["obs"] if l >= 2 else None
+                rep.violation("moledit-trace", {"tid": t["tid"], "stuck_at": l, "event": e, "observed_after": o,
+                                                "observed_before": prev, "history": [{k: v for k, v in x.items() if k != "obs"} for x in t["ev"][:l]]},
+                              what=f"{t['tid']}: event {l} {json.dumps(e)[:200]} is not a step of MolEdit")
+    ev.count(evaluations=nev, distinct_nontrivial=nev, traces=n)
+    ev.set(random_histories={"traces": n, "events": nev, "rejected": bad, "length": 40, "sources": list(SOURCES)})
+    if traces["Molecule"]:
+        ev.add_samples([{"direction": "B", "events": [{k: v for k, v in x.items() if k != "obs"} for x in traces["Molecule"][0]["ev"][1:7]]}], 1)
+    rep.note(f"direction B: {n} histories on file-loaded molecules, {nev} events, {bad} rejected")
+
+
 def run(tier, seed, replay_path):
     ev = Evidence(PROP, tier, seed)
     rep = Reporter(PROP, ev)
@@ -79,6 +122,7 @@ def run(tier, seed, replay_path):
         one(tier, seed, ev, rep, "Molecule", "Ids3", "Fr2", 3, budget=420)
         one(tier, seed, ev, rep, "Structure", "Ids3", "Fr1", 3, budget=150)
         one(tier, seed, ev, rep, "Molecule", "Ids4", "Fr1", 3, budget=200)
+    direction_b(tier, seed, ev, rep)
     ev.set(rule="one case = one (model state, edit call) pair of the TLC graph replayed on a real Molecule/Structure; the "
                 "observation is keyed by atom identity; distinct_nontrivial = distinct pairs exercised within the time budget")
     ev.assumptions += ["self-bonds and parallel bonds are not generated", "coordinates of library-placed hydrogens are not compared"]
@@ -88,6 +132,17 @@ def run(tier, seed, replay_path):
 def do_replay(path):
     from ..adapters.moledit import MolEditAdapter
     doc = json.loads(open(path).read())
+    if doc["kind"] == "moledit-trace":
+        from ..drivers_moledit import history
+        from .. import trace as T
+        src, kind, sd = doc["tid"].rsplit("-", 2)
+        t = history(int(sd), 40, src, kind)
+        verdicts, _ = T.validate("MolEditTrace", [t], trace_cfg(kind), chunk=1, tag="c05rp")
+        print(json.dumps(verdicts))
+        if verdicts[t["tid"]][0] != "ACCEPT":
+            print(f"VIOLATION property={PROP} replay={path}")
+            return 1
+        return 0
     ad = MolEditAdapter(doc.get("kind", "Molecule"))
     res = replay.run_path(ad, doc["path"])
     last = res[-1]
